@@ -1,28 +1,31 @@
-(* C15: the faithful model of dem._adjust_elevation satisfies the whole 1-D contract, for every profile; hence the
+(* C15: the faithful model of dem._adjust_elevation (for EVERY cost function, hence every element type) satisfies the whole 1-D contract, for every profile; hence the
    tree-level theorems hold for dem.adjust_elevation itself, without hypotheses on the fixer. *)
 From Coq Require Import List Arith ZArith Lia Bool.
 Import ListNotations.
 From PF Require Import Arr Net Elev ElevSpec Fix1dSpec Fix1dMono.
 Local Open Scope Z_scope.
 
-Theorem fix1d_contract : contract fix1d.
+Section C.
+Variable cost : list Z -> mods -> Z.
+
+Theorem fix1d_contract : contract (fix1d cost).
 Proof.
   constructor.
   - apply fix1d_length.
   - intros l j Hj. destruct l as [|a t] eqn:El; [simpl in Hj; lia|]. rewrite <- El in *.
     assert (Hne : l <> []) by (rewrite El; discriminate).
     destruct (zn_bounds l) as [lo [hi Hb]].
-    destruct (fix1d_contract_all l lo hi Hne) as (Hl & Hm & _).
+    destruct (fix1d_contract_all cost l lo hi Hne) as (Hl & Hm & _).
     { intros x Hx. apply (In_nth _ _ 0) in Hx. destruct Hx as [k [_ <-]]. apply Hb. }
     apply Hm; [lia|]. rewrite <- Hl. exact Hj.
   - intros l. destruct l as [|a t] eqn:El; [reflexivity|]. rewrite <- El in *.
     assert (Hne : l <> []) by (rewrite El; discriminate).
     destruct (zn_bounds l) as [lo [hi Hb]].
-    destruct (fix1d_contract_all l lo hi Hne) as (_ & _ & Hlast & _); [|exact Hlast].
+    destruct (fix1d_contract_all cost l lo hi Hne) as (_ & _ & Hlast & _); [|exact Hlast].
     intros x Hx. apply (In_nth _ _ 0) in Hx. destruct Hx as [k [_ <-]]. apply Hb.
   - intros l lo hi Hw x Hx. destruct l as [|a t] eqn:El; [simpl in Hx; destruct Hx|]. rewrite <- El in *.
     assert (Hne : l <> []) by (rewrite El; discriminate).
-    destruct (fix1d_contract_all l lo hi Hne Hw) as (Hl & _ & _ & Hr).
+    destruct (fix1d_contract_all cost l lo hi Hne Hw) as (Hl & _ & _ & Hr).
     apply (In_nth _ _ 0) in Hx. destruct Hx as [k [Hk <-]]. apply Hr. rewrite <- Hl. exact Hk.
   - apply fix1d_identity_on_sorted.
 Qed.
@@ -30,17 +33,18 @@ Qed.
 (* dem.adjust_elevation itself *)
 Theorem adjust_elevation_spec ds sq elv lo hi : topo ds sq -> complete ds sq -> length elv = length ds ->
   (forall i, valid ds i -> lo <= zn elv i <= hi) ->
-  let out := adjust fix1d ds sq elv in
+  let out := adjust (fix1d cost) ds sq elv in
   length out = length elv /\
   (forall i, valid ds i -> dsf ds i <> i -> zn out (dsf ds i) <= zn out i) /\
   (forall i, ~ valid ds i -> zn out i = zn elv i) /\
   (forall i, valid ds i -> lo <= zn out i <= hi) /\
-  adjust fix1d ds sq out = out /\
+  adjust (fix1d cost) ds sq out = out /\
   ((forall i, valid ds i -> dsf ds i <> i -> zn elv (dsf ds i) <= zn elv i) -> out = elv).
 Proof.
   intros Ht Hc Hl Hr out.
-  destruct (adjust_tree fix1d ds sq elv lo hi fix1d_contract Ht Hc Hl Hr) as (A & B & C & D).
+  destruct (adjust_tree (fix1d cost) ds sq elv lo hi fix1d_contract Ht Hc Hl Hr) as (A & B & C & D).
   split; [exact A|]. split; [exact B|]. split; [exact C|]. split; [exact D|]. split.
   - apply adjust_idempotent; auto. apply fix1d_contract.
   - intros Hconf. apply adjust_conforming_fixed; auto. apply fix1d_contract.
 Qed.
+End C.
